@@ -13,6 +13,7 @@ import (
 	"fmt"
 	"io"
 	nethttp "net/http"
+	"os"
 	"sort"
 	"strings"
 	"testing"
@@ -81,6 +82,8 @@ type nodeCase struct {
 	Flag     string    `json:"flag,omitempty"`
 	Source   string    `json:"source,omitempty"` // cli-eq | cli-sp | env | file | config-cmd
 	MustFail bool      `json:"must_fail,omitempty"`
+	// Gates: the gating options of a gating case (for the check that the value reached the node)
+	Gates []gateRef `json:"gates,omitempty"`
 	// Iso: run the start in a child process (values that may take the whole process down: zero / negative / huge numbers)
 	Iso bool `json:"iso,omitempty"`
 	// ObserveOnly: the statement does not say what this spelling means (e.g. strictmode "yes"): outcome reported, never a violation
@@ -441,6 +444,10 @@ func runCfgCase(t *testing.T, r *ev.Run, nc nodeCase) {
 // judgeCfgCase applies the oracle to the outcome of one case.
 func judgeCfgCase(r *ev.Run, nc nodeCase, res startResult, obs actionObs) {
 	c := nc.Cfg
+	if os.Getenv("VERIF_REPLAY") != "" { // a replay shows what was observed
+		b, _ := json.Marshal(map[string]any{"result": res, "actions": obs})
+		fmt.Printf("REPLAY-OBSERVED %s\n", b)
+	}
 	if res.Crashed != "" {
 		// the child process that ran this start died or hung: a crash is not a verdict of the property (the node is not running)
 		r.Eval(nc.Kind + nc.Flag + ev.Key(c))
@@ -488,6 +495,7 @@ func judgeCfgCase(r *ev.Run, nc nodeCase, res startResult, obs actionObs) {
 		}
 		// action-level signatures carry no gating suffix: a defect that does not depend on the gate would otherwise be reported once per
 		// gate value; the replay case names the gate
+		judgeReached(r, nc, res)
 		judgeEffective(r, nc, c, res, "")
 		judgeActions(r, nc, c, res, obs, "")
 		return
